@@ -192,8 +192,7 @@ func c16RunScenario(m *vk.M, idx int, sc c16Scenario) (st c16Stats, ok bool) {
 	}
 	// let late executions (a violation in themselves) finish so that they are classified
 	// by what happened, not by when we looked
-	settled := vk.WaitUntil(20*time.Second, func() bool { return s.executed(all) && atomic.LoadInt32(&s.inExec) == 0 })
-	if !settled && atomic.LoadInt32(&s.inExec) != 0 {
+	if !s.settle(all) {
 		m.Inconclusive("case %d: an execute callback was still running 20 s after the final Wait", idx)
 		return st, false
 	}
@@ -235,6 +234,10 @@ func c16Stress(t *testing.T, m *vk.M, n int) {
 			runtime.GOMAXPROCS(procs)
 		}
 		v0 := m.ViolCount()
+		if v0 >= c16EnoughWitnesses {
+			m.Note("stopped before case %d: %d violating scenarios recorded, enough witnesses", idx, v0)
+			break
+		}
 		st, ok := c16RunScenario(m, idx, sc)
 		if !ok {
 			m.Note("stopped after case %d (goroutines left behind by a stalled scenario)", idx)
